@@ -29,3 +29,18 @@ pub mod v2 {
         END"
     );
 }
+
+pub mod nullseq {
+    use asn1rs::prelude::*;
+    asn_to_rust!(
+        r"NullSeq DEFINITIONS AUTOMATIC TAGS ::=
+        BEGIN
+          Msg ::= SEQUENCE {
+            a NULL,
+            b INTEGER (0..255),
+            ...,
+            c INTEGER (0..255) OPTIONAL
+          }
+        END"
+    );
+}
